@@ -186,33 +186,41 @@ def rawDecodeHeader (s : Bytes) : Option (Int × Bytes) :=
   | none => none
   | some n => some (n, p.2.1)
 
-/-- one pass of `rawDecoder.Scan` -/
-def rawPass (bs : Bytes) : List RawAmmo × Stop :=
+/-- one pass of `rawDecoder.Scan`. `fixed = true`: the decoder of /repo (since dbbf16d a last size line that lacks its
+newline - `ReadString` returns it together with io.EOF - is decoded like every other size line, so an entry cut short
+is an error); `fixed = false`: the decoder before that repair (whatever came with io.EOF was dropped) -/
+def rawPassF (fixed : Bool) (bs : Bytes) : List RawAmmo × Stop :=
   match bs with
-  | [] => ([], .eof)
+  | [] => ([], .eof)            -- ReadString: "", io.EOF
   | b :: r =>
     let p := cut LF (b :: r)
-    if !p.2.2 then ([], .eof)                -- ReadString returned io.EOF: whatever came with it is dropped
+    if !p.2.2 && !fixed then ([], .eof)      -- before the repair: data that comes with io.EOF is dropped
     else
-      match trimSpace (p.1 ++ [LF]) with
-      | [] => rawPass p.2.1
+      match trimSpace (if p.2.2 then p.1 ++ [LF] else p.1) with
+      | [] => rawPassF fixed p.2.1
       | c :: d =>
         match rawDecodeHeader (c :: d) with
         | none => ([], .err .rawsize)
         | some (n, tag) =>
           if n < 0 then ([], .err .negsize)             -- readSized: ErrNegativeSize
           else if n = 0 then
-            let q := rawPass p.2.1
+            let q := rawPassF fixed p.2.1
             ({ frame := [], tag := [] } :: q.1, q.2)
           else if p.2.1.length < n.toNat then ([], .err .shortread)
           else
-            let q := rawPass (p.2.1.drop n.toNat)
+            let q := rawPassF fixed (p.2.1.drop n.toNat)
             ({ frame := p.2.1.take n.toNat, tag := tag } :: q.1, q.2)
 termination_by bs.length
 decreasing_by
   all_goals first
     | exact cut_rest_lt LF b r
     | (have := cut_rest_lt LF b r; simp only [List.length_drop]; omega)
+
+/-- the raw decoder of /repo -/
+abbrev rawPass (bs : Bytes) : List RawAmmo × Stop := rawPassF true bs
+
+/-- the raw decoder before /repo dbbf16d -/
+abbrev rawPassOld (bs : Bytes) : List RawAmmo × Stop := rawPassF false bs
 
 /-! ### http/json (after encoding/json) -/
 
